@@ -307,7 +307,12 @@ fn build(c: &ChainSpec, violation: Option<&Violation>) -> Result<Built3, String>
 	inter2.not_after = na2;
 
 	if c.no_nc {
-		// nothing
+		// nothing - or, in a third of these, constraints that are present but empty on every CA
+		if c.at % 3 == 0 {
+			root.name_constraints = Some(NcSpec::default());
+			inter.name_constraints = Some(NcSpec::default());
+			inter2.name_constraints = Some(NcSpec::default());
+		}
 	} else if c.nc_on_root || !c.three_level {
 		root.name_constraints = Some(nc);
 	} else {
